@@ -145,6 +145,7 @@ class Recorder:
             rel = '/'.join(m.groups())
         if rel not in self.file_ids:
             self.file_ids[rel] = len(self.file_ids)
+            self.__dict__.setdefault('file_paths', {})[rel] = path
         return self.file_ids[rel]
 
     def before(self, kind, detail):
